@@ -509,6 +509,8 @@ def single_model_twin(ctx):
                # variables named like members of the model object (a method, a property, a NumPy-style attribute)
                # transient numerical warnings (a division by a not-yet-computed zero, a logarithm of zero) that heal on the next pass
                'X = Z / Y\nY = W', 'L = log(K)\nK = 0.5 * K[0] + G\nM = L + 1',
+               # a model without equations (a data holder): one pass per iteration all the same, and the linker's stamps
+               '', '# data only\n',
                'size = 0.5 * size[-1] + copy\ncopy = 0.9 * copy[0] + X', 'T = C + values\nC = {c} * T[0]\nvalues = 0.25 * T[-1] + eval', 'solve = {a} * reindex + 1\nreindex = {b} * solve[0] + 2']
     for k, script in enumerate(scripts):
         if not ctx.mine(k):
